@@ -15,9 +15,13 @@ indexed.go / storage.go / bolt.go:
                                   "tasks/cpu") `path.Join`'s cleaning is the identity and the key layout is injective
                                   (data vs index area, index vs index, value vs value);
   * `step_refines_map`            one API call refines one step of the abstract map (result codes by the exists /
-                                  replace rules, only an injected fault can make it fail otherwise) and keeps data
-                                  area and index area in bijection with the map;
-  * `history_refines_map`, `get_returns_last_stored`, `index_bijection`   the same for every history;
+                                  replace rules and the uniqueness of the unique indexes, only an injected fault can
+                                  make it fail otherwise) and keeps data area and index area in bijection with the map
+                                  — for ANY well-formed configuration, unique secondary indexes included;
+  * `unique_conflict_rejected`    storing an object whose value of a unique index is held by another stored object
+                                  is rejected with `conflict`, whatever the fault, and changes nothing;
+  * `history_refines_map`, `get_returns_last_stored`, `index_bijection`, `unique_indexes_stay_unique`
+                                  the same for every history; uniqueness of every unique index is an invariant;
   * `pagination_exact`, `nolimit_exact`   `DoListFunc` = filter ▸ drop offset ▸ take limit.
   * `bucket_stays_sorted`, `prefix_scan_exact`, `composite_key_order`, `index_listing`, `list_is_page_of_listing`
                                   every index lists exactly the stored objects, each once, ascending by (value, id),
@@ -56,43 +60,75 @@ theorem keys_faithful_on_wf (c : Cfg) (hc : c.wf = true) : KeysOK c (fun o => c.
 
 /-- **One API call** (create / put / replace / delete / rebuild / reopen, with any fault) from a sorted bucket in
 which data area and index area are in bijection with the abstract map `m`: the reported result is admissible for the
-abstract map (`specStep`: "exists" / "missing" exactly by the rules, `io` only when a fault was injected, no success
-when the commit fails; `Rebuild` changes nothing) and the bijection holds again for the abstract successor. Unique
-secondary indexes are allowed as long as the abstract successor has distinct values on them (`UniqueOK`). -/
+abstract map (`specStep`: "exists" / "missing" exactly by the rules, then "conflict" exactly when a unique index
+already has the value for another id, `io` only when a fault was injected, no success when the commit fails;
+`Rebuild` changes nothing) and the bijection — uniqueness of every unique index included — holds again for the
+abstract successor. No hypothesis on the unique indexes: they may be on any attribute. -/
 theorem step_refines_map (c : Cfg) (hc : c.wf = true) (kv : KV) (m : Abs)
     (hi : Inv c (fun o => c.wfObj o = true) kv m) (hs : Sorted kv) (op : Op)
-    (hwf : ∀ o, op.obj? = some o → c.wfObj o = true) (hu : UniqueOK c (specApply m op).1) :
-    ∃ m', specStep m op (step c kv op).2 = some m' ∧
+    (hwf : ∀ o, op.obj? = some o → c.wfObj o = true) :
+    ∃ m', specStep c m op (step c kv op).2 = some m' ∧
       Inv c (fun o => c.wfObj o = true) (step c kv op).1 m' :=
-  step_refines_all hc (fun _ h => h) (keysOK_of_wf c hc) hi hs op hwf hu
+  step_refines_all hc (fun _ h => h) (keysOK_of_wf c hc) hi hs op hwf
+
+/-- **A unique index never takes a second holder**: when a stored object of another id already has the value of
+some unique index, `Put` — and `Create` of an absent id, `Replace` of a present one — answers `conflict` and the
+committed bucket is exactly what it was, whatever fault is armed (the check runs before the first write). -/
+theorem unique_conflict_rejected (c : Cfg) (hc : c.wf = true) (kv : KV) (m : Abs)
+    (hi : Inv c (fun o => c.wfObj o = true) kv m) (o : Obj) (hwf : c.wfObj o = true) (f : Fault)
+    (hcf : absConflict c m o = true) :
+    step c kv (.put o f) = (kv, some .conflict) ∧
+    ((absGet m o.id).isNone = true → step c kv (.create o f) = (kv, some .conflict)) ∧
+    ((absGet m o.id).isSome = true → step c kv (.replace o f) = (kv, some .conflict)) := by
+  have hk := keysOK_of_wf c hc
+  have h1 := putTx_result hk hi o hwf true false (beginTx kv f) rfl
+  have h2 := putTx_result hk hi o hwf false false (beginTx kv f) rfl
+  have h3 := putTx_result hk hi o hwf true true (beginTx kv f) rfl
+  cases hg : absGet m o.id with
+  | none =>
+    rw [hg] at h1 h2
+    simp only [Bool.false_eq_true, ↓reduceIte, hcf] at h1 h2
+    refine ⟨?_, fun _ => ?_, fun h => by simp at h⟩ <;> simp only [step, update, h1, h2]
+  | some x =>
+    rw [hg] at h1 h3
+    simp only [↓reduceIte, hcf] at h1 h3
+    refine ⟨?_, fun h => by simp at h, fun _ => ?_⟩ <;> simp only [step, update, h1, h3]
+
+/-- Non-vacuity: a unique index on the tag; "b" asks for the tag "a" holds. -/
+example :
+    let c : Cfg := { pfx := "p".toList, indexes := [⟨"id".toList, true, .id⟩, ⟨"tag".toList, true, .tag⟩] }
+    let m : Abs := [⟨"a".toList, [], "t".toList, "1".toList⟩]
+    c.wf = true ∧ c.wfObj ⟨"b".toList, [], "t".toList, "2".toList⟩ = true ∧
+      absConflict c m ⟨"b".toList, [], "t".toList, "2".toList⟩ = true ∧
+      (absRun c [.create ⟨"a".toList, [], "t".toList, "1".toList⟩ .none] [] []) = some m := by decide
 
 /-- **Every history** of create / put / replace / delete / rebuild / reopen with well-formed objects, with a fault injected
-at any write or commit of any operation, on a well-formed configuration whose unique indexes are on the id:
+at any write or commit of any operation, on ANY well-formed configuration (unique indexes on any attribute):
 all results are admissible for the abstract map and the final bucket is in bijection with the final map. -/
-theorem history_refines_map (c : Cfg) (hc : c.wf = true) (hid : c.uniqueOnIdOnly = true) (ops : List Op)
+theorem history_refines_map (c : Cfg) (hc : c.wf = true) (ops : List Op)
     (hops : ∀ op ∈ ops, ∀ o, op.obj? = some o → c.wfObj o = true) :
     ∃ m, absRun c ops [] [] = some m ∧ Inv c (fun o => c.wfObj o = true) (run c ops) m :=
-  history_refines_all hc (fun _ h => h) (keysOK_of_wf c hc) hid ops [] [] (inv_empty c _) List.Pairwise.nil hops
+  history_refines_all hc (fun _ h => h) (keysOK_of_wf c hc) ops [] [] (inv_empty c _) List.Pairwise.nil hops
 
 /-- **get returns the last value stored under an ID** — after every such history. -/
-theorem get_returns_last_stored (c : Cfg) (hc : c.wf = true) (hid : c.uniqueOnIdOnly = true) (ops : List Op)
+theorem get_returns_last_stored (c : Cfg) (hc : c.wf = true) (ops : List Op)
     (hops : ∀ op ∈ ops, ∀ o, op.obj? = some o → c.wfObj o = true) :
     ∃ m, absRun c ops [] [] = some m ∧
       ∀ id, get c (run c ops) id = match absGet m id with | some o => .ok o | none => .error .missing := by
-  obtain ⟨m, hr, hi⟩ := history_refines_map c hc hid ops hops
+  obtain ⟨m, hr, hi⟩ := history_refines_map c hc ops hops
   exact ⟨m, hr, fun id => getTx_spec (keysOK_of_wf c hc) hi id⟩
 
 /-- **Index entries and stored objects are in bijection** — after every such history: every stored object has its
 entry (holding its id) in every index, every key of the bucket is the data key of a stored object or the index
 entry of a stored object, and two (index, object) pairs never share an entry. -/
-theorem index_bijection (c : Cfg) (hc : c.wf = true) (hid : c.uniqueOnIdOnly = true) (ops : List Op)
+theorem index_bijection (c : Cfg) (hc : c.wf = true) (ops : List Op)
     (hops : ∀ op ∈ ops, ∀ o, op.obj? = some o → c.wfObj o = true) :
     ∃ m, absRun c ops [] [] = some m ∧
       (∀ o ∈ m, ∀ i ∈ c.indexes, kvGet (run c ops) (ikey c i o) = some (.ref o.id)) ∧
       (∀ k v, kvGet (run c ops) k = some v →
         (∃ o ∈ m, k = dataKey c o.id ∧ v = .obj o) ∨ (∃ o ∈ m, ∃ i ∈ c.indexes, k = ikey c i o ∧ v = .ref o.id)) ∧
       (∀ a ∈ m, ∀ b ∈ m, ∀ i ∈ c.indexes, ∀ j ∈ c.indexes, ikey c i a = ikey c j b → i = j ∧ a = b) := by
-  obtain ⟨m, hr, hi⟩ := history_refines_map c hc hid ops hops
+  obtain ⟨m, hr, hi⟩ := history_refines_map c hc ops hops
   have hk := keysOK_of_wf c hc
   refine ⟨m, hr, hi.index, hi.only, ?_⟩
   intro a ha b hb i hi' j hj he
@@ -101,6 +137,25 @@ theorem index_bijection (c : Cfg) (hc : c.wf = true) (hid : c.uniqueOnIdOnly = t
   cases hun : i.unique with
   | false => exact hnu hun
   | true => exact hi.uniq i hi' hun a ha b hb hsel
+
+/-- **Uniqueness of every unique index is an invariant** — after every such history no two stored objects share a
+value of an index marked `Unique` (so no object can be pushed out of the listing of a unique index). -/
+theorem unique_indexes_stay_unique (c : Cfg) (hc : c.wf = true) (ops : List Op)
+    (hops : ∀ op ∈ ops, ∀ o, op.obj? = some o → c.wfObj o = true) :
+    ∃ m, absRun c ops [] [] = some m ∧ uniqueOK c m = true ∧
+      ∀ i ∈ c.indexes, i.unique = true → ∀ a ∈ m, ∀ b ∈ m, i.sel.get a = i.sel.get b → a = b := by
+  obtain ⟨m, hr, hi⟩ := history_refines_map c hc ops hops
+  refine ⟨m, hr, ?_, fun i hi' hun a ha b hb hsel => hi.ids a ha b hb (hi.uniq i hi' hun a ha b hb hsel)⟩
+  simp only [uniqueOK, List.all_eq_true, Bool.or_eq_true, Bool.not_eq_true', decide_eq_true_eq]
+  intro i hi'
+  cases hun : i.unique with
+  | false => exact Or.inl rfl
+  | true =>
+    right
+    intro a ha b hb
+    by_cases hsel : i.sel.get a = i.sel.get b
+    · exact Or.inl (hi.uniq i hi' hun a ha b hb hsel)
+    · exact Or.inr hsel
 
 /-- Non-vacuity of the hypotheses: the default configuration is well-formed, and a history with a replace that
 moves the object to another group, a rejected create, a faulted put and a delete satisfies the premises; the
@@ -113,7 +168,7 @@ example :
       .create ⟨"a".toList, "g".toList, [], "4".toList⟩ .none,
       .put ⟨"b".toList, "g".toList, [], "5".toList⟩ (.write 1), .delete "ab".toList .none, .rebuild (.write 2),
       .rebuild .none, .reopen]
-    c.wf = true ∧ c.uniqueOnIdOnly = true ∧
+    c.wf = true ∧
       (ops.all (fun op => match op.obj? with | some o => c.wfObj o | none => true)) = true ∧
       (absRun c ops [] []).isSome = true ∧ (run c ops).length = 3 := by decide
 
@@ -150,20 +205,36 @@ theorem dot_id_is_stored_but_not_listed :
     answers (get cfg2 kv ".".toList) ⟨".".toList, "g".toList, [], "1".toList⟩ = true ∧
     answers (list cfg2 kv "id".toList [] 0 (-1) false) [] = true := by decide
 
-/-- Finding `path-clean-keys`, collision: ID "a/../b" takes over the id-index entry of "b"; deleting it removes
-that entry, after which "b" is stored but not listed. -/
-theorem cleaned_ids_collide :
-    let kv := run cfg2 [.create ⟨"b".toList, "g".toList, [], "1".toList⟩ .none,
-                        .create ⟨"a/../b".toList, "g".toList, [], "2".toList⟩ .none, .delete "a/../b".toList .none]
-    (get cfg2 kv "b".toList).toBool = true ∧ answers (list cfg2 kv "id".toList [] 0 (-1) false) [] = true := by decide
+/-- Finding `path-clean-keys`, collision: ID "a/../b" is stored under its own data key but its id-index entry is
+the one of "b" ("/p/indexes/id/b"); the clean id "b" can then not be created at all — the uniqueness check finds
+its entry held by another id — although no object "b" is stored. -/
+theorem cleaned_id_occupies_entry :
+    let kv := run cfg2 [.create ⟨"a/../b".toList, "g".toList, [], "1".toList⟩ .none]
+    (get cfg2 kv "a/../b".toList).toBool = true ∧ (get cfg2 kv "b".toList).toBool = false ∧
+    (step cfg2 kv (.create ⟨"b".toList, "g".toList, [], "2".toList⟩ .none)).2 = some .conflict := by decide
 
-/-- Finding `unique-index-no-check`: a second object with the same value of a unique index takes over the entry;
-the first object is stored but no longer listed on that index. -/
-theorem unique_index_entry_taken_over :
-    let kv := run cfg3 [.create ⟨"a".toList, [], "t".toList, "1".toList⟩ .none,
-                        .create ⟨"b".toList, [], "t".toList, "2".toList⟩ .none]
-    (get cfg3 kv "a".toList).toBool = true ∧
-    answers (list cfg3 kv "tag".toList [] 0 (-1) false) [⟨"b".toList, [], "t".toList, "2".toList⟩] = true := by decide
+/-- Finding `path-clean-keys`, outside the directory: the value "../id/b" of the non-unique group index puts the
+entry of object "zz" INTO the directory of the id index ("/p/indexes/id/b/zz"): the id listing answers "zz" twice. -/
+theorem cleaned_value_lands_in_other_index :
+    let b : Obj := ⟨"b".toList, "g".toList, [], "1".toList⟩
+    let z : Obj := ⟨"zz".toList, "../id/b".toList, [], "2".toList⟩
+    let kv := run cfg2 [.create b .none, .create z .none]
+    answers (list cfg2 kv "id".toList [] 0 (-1) false) [b, z, z] = true := by decide
+
+/-- The defect repaired by the `fix:` commit that added the uniqueness check (former finding
+`unique-index-no-check`): with the `putTx` of before (`putTxOld`) a second object with the same value of a unique
+index took over the entry — the first object was stored but no longer listed on that index. Today the same call is
+rejected with `conflict` and changes nothing (replayed on the real code by
+corpus/C15/unique-index-conflict-rejected.ops). -/
+theorem putTxOld_unique_entry_taken_over :
+    let a : Obj := ⟨"a".toList, [], "t".toList, "1".toList⟩
+    let b : Obj := ⟨"b".toList, [], "t".toList, "2".toList⟩
+    let kv1 := run cfg3 [.create a .none]
+    let old := update kv1 .none (fun t => putTxOld cfg3 t b false false)
+    old.2 = none ∧ (get cfg3 old.1 "a".toList).toBool = true ∧
+    answers (list cfg3 old.1 "tag".toList [] 0 (-1) false) [b] = true ∧
+    step cfg3 kv1 (.create b .none) = (kv1, some .conflict) ∧
+    answers (list cfg3 kv1 "tag".toList [] 0 (-1) false) [a] = true := by decide
 
 /-- Finding `index-order-separator`: values "g" and "g.1" of a non-unique index: the entry keys are "g/a" and
 "g.1/b", and '.' sorts below '/', so the object of the LARGER value is listed first. -/
@@ -182,6 +253,25 @@ theorem listOld_nolimit_ignores_pattern_offset :
     answers (listOld cfg2 kv "id".toList "b".toList 1 (-1) false)
       [⟨"a".toList, "g".toList, [], "1".toList⟩, ⟨"b".toList, "g".toList, [], "2".toList⟩] = true ∧
     answers (list cfg2 kv "id".toList "b".toList 1 (-1) false) [] = true := by decide
+
+/-- Non-vacuity with a unique SECONDARY index: "b" is refused the tag of "a" (create and put), takes it after "a"
+moved to another tag, after which "a" cannot move back; the abstract run is defined and the tag listing has both. -/
+example :
+    let c : Cfg := { pfx := "p".toList, indexes := [⟨"id".toList, true, .id⟩, ⟨"tag".toList, true, .tag⟩] }
+    let ops : List Op := [.create ⟨"a".toList, [], "t".toList, "1".toList⟩ .none,
+      .create ⟨"b".toList, [], "t".toList, "2".toList⟩ .none,
+      .put ⟨"b".toList, [], "t".toList, "3".toList⟩ (.write 0),
+      .replace ⟨"a".toList, [], "s".toList, "4".toList⟩ .none,
+      .put ⟨"b".toList, [], "t".toList, "5".toList⟩ .none,
+      .replace ⟨"a".toList, [], "t".toList, "6".toList⟩ .commit]
+    c.wf = true ∧
+      (ops.all (fun op => match op.obj? with | some o => c.wfObj o | none => true)) = true ∧
+      (absRun c ops [] []).isSome = true ∧
+      (step c (run c (ops.take 1)) (ops.getD 1 .reopen)).2 = some .conflict ∧
+      (step c (run c (ops.take 2)) (ops.getD 2 .reopen)).2 = some .conflict ∧
+      (step c (run c (ops.take 5)) (ops.getD 5 .reopen)).2 = some .conflict ∧
+      answers (list c (run c ops) "tag".toList [] 0 (-1) false)
+        [⟨"a".toList, [], "s".toList, "4".toList⟩, ⟨"b".toList, [], "t".toList, "5".toList⟩] = true := by decide
 
 /-! ### Listings: exactly the stored objects, each once, in index order; pages are slices -/
 
@@ -203,12 +293,12 @@ theorem composite_key_order (va vb a b : Str) (ha : SepSafe va = true) (hb : Sep
 /-- **Every index lists exactly the stored objects, each once, in index order** — after every history of create /
 put / replace / delete / rebuild / reopen (faults anywhere): the unbounded `List(index, "", 0, -1)` succeeds and its answer is
 strictly ascending by (index value, id) and has exactly the objects of the abstract map as members. -/
-theorem index_listing (c : Cfg) (hc : c.wf = true) (hid : c.uniqueOnIdOnly = true) (ops : List Op)
+theorem index_listing (c : Cfg) (hc : c.wf = true) (ops : List Op)
     (hops : ∀ op ∈ ops, ∀ o, op.obj? = some o → OrderWF c o) :
     ∃ m, absRun c ops [] [] = some m ∧
       ∀ i ∈ c.indexes, ∃ l, list c (run c ops) i.name [] 0 (-1) false = .ok l ∧ IsListing i.sel m l := by
   have hk : KeysOK c (OrderWF c) := (keysOK_of_wf c hc).mono (fun o ho => ho.1)
-  obtain ⟨m, hr, hi⟩ := history_refines_all hc (fun o ho => ho.1) hk hid ops [] [] (inv_empty c _) List.Pairwise.nil hops
+  obtain ⟨m, hr, hi⟩ := history_refines_all hc (fun o ho => ho.1) hk ops [] [] (inv_empty c _) List.Pairwise.nil hops
   refine ⟨m, hr, ?_⟩
   intro i hi'
   obtain ⟨l, hres, hlist⟩ := listing_of_inv hc (fun o ho => ho.1) (fun o ho => ho.2) hi (run_sorted c ops) i hi'
@@ -222,7 +312,7 @@ theorem index_listing (c : Cfg) (hc : c.wf = true) (hid : c.uniqueOnIdOnly = tru
 /-- **Pagination with offset/limit and glob patterns returns the corresponding slice of that list** — after every
 such history, for every index, pattern, offset, limit (negative = no limit) and direction: `List`/`ReverseList`
 answers exactly `specPage` of THE listing `l` (filter by the pattern on the id ▸ drop offset ▸ take limit). -/
-theorem list_is_page_of_listing (c : Cfg) (hc : c.wf = true) (hid : c.uniqueOnIdOnly = true) (ops : List Op)
+theorem list_is_page_of_listing (c : Cfg) (hc : c.wf = true) (ops : List Op)
     (hops : ∀ op ∈ ops, ∀ o, op.obj? = some o → OrderWF c o) :
     ∃ m, absRun c ops [] [] = some m ∧
       ∀ i ∈ c.indexes, ∃ l, IsListing i.sel m l ∧
@@ -230,7 +320,7 @@ theorem list_is_page_of_listing (c : Cfg) (hc : c.wf = true) (hid : c.uniqueOnId
           list c (run c ops) i.name pat (off : Int) lim rev
             = .ok (specPage (if rev then l.reverse else l) (matchFn pat) (off : Int) lim) := by
   have hk : KeysOK c (OrderWF c) := (keysOK_of_wf c hc).mono (fun o ho => ho.1)
-  obtain ⟨m, hr, hi⟩ := history_refines_all hc (fun o ho => ho.1) hk hid ops [] [] (inv_empty c _) List.Pairwise.nil hops
+  obtain ⟨m, hr, hi⟩ := history_refines_all hc (fun o ho => ho.1) hk ops [] [] (inv_empty c _) List.Pairwise.nil hops
   refine ⟨m, hr, ?_⟩
   intro i hi'
   obtain ⟨l, hres, hlist⟩ := listing_of_inv hc (fun o ho => ho.1) (fun o ho => ho.2) hi (run_sorted c ops) i hi'
@@ -254,10 +344,10 @@ example :
 
 /-- **`Rebuild` is the identity on every reachable state** (the index area is a function of the data area): after
 every such history `Rebuild` succeeds and the bucket is exactly — key by key — what it was. -/
-theorem rebuild_identity (c : Cfg) (hc : c.wf = true) (hid : c.uniqueOnIdOnly = true) (ops : List Op)
+theorem rebuild_identity (c : Cfg) (hc : c.wf = true) (ops : List Op)
     (hops : ∀ op ∈ ops, ∀ o, op.obj? = some o → c.wfObj o = true) :
     step c (run c ops) (.rebuild .none) = (run c ops, none) := by
-  obtain ⟨m, _, hi⟩ := history_refines_map c hc hid ops hops
+  obtain ⟨m, _, hi⟩ := history_refines_map c hc ops hops
   obtain ⟨h1, h2⟩ := update_rebuild_refines hc (fun _ h => h) (keysOK_of_wf c hc) hi (run_sorted c ops) .none
   have h3 : (step c (run c ops) (.rebuild .none)).2 = none := by
     cases hres : (update (run c ops) Fault.none fun t => rebuildTx c t).2 with
